@@ -70,7 +70,8 @@ def all_paths(
     exist. If *recursive* is enabled, all files belonging to *project* that are
     recursive children of *paths* are also added.
 
-    Directories are filtered out.
+    Directories are filtered out, and so are symbolic links: a header is never
+    written through a link.
     """
     if recursive:
         result: set[Path] = set()
@@ -86,7 +87,10 @@ def all_paths(
                 }
     else:
         result = set(paths)
-    return [_determine_license_path(path) for path in result if path.is_file()]
+    license_paths = (
+        _determine_license_path(path) for path in result if path.is_file()
+    )
+    return [path for path in license_paths if not path.is_symlink()]
 
 
 def verify_paths_comment_style(
